@@ -38,6 +38,22 @@ Fixpoint for_ret_from {S R} (n lo : nat) (body : nat -> S -> res (S + R)) (s : S
 Definition for_ret {S R} (lo hi : nat) (body : nat -> S -> res (S + R)) (s : S) : res (S + R) :=
   for_ret_from (hi - lo) lo body s.
 
+(* a `while` loop with an explicit fuel bound: each pass answers WNext (go on), WDone (condition false) or WRet (the
+   function returns); None = the fuel ran out *)
+Inductive wout (S R : Type) : Type := WNext (s : S) | WDone (s : S) | WRet (r : R).
+Arguments WNext {S R} s. Arguments WDone {S R} s. Arguments WRet {S R} r.
+Fixpoint while_ret {S R} (fuel : nat) (body : S -> res (wout S R)) (s : S) : res (option (S + R)) :=
+  match fuel with
+  | 0 => Ok None
+  | Datatypes.S f =>
+      let* o := body s in
+      match o with
+      | WNext s' => while_ret f body s'
+      | WDone s' => Ok (Some (inl s'))
+      | WRet r => Ok (Some (inr r))
+      end
+  end.
+
 (* Option::unwrap / Result::unwrap *)
 Definition unwrap_opt {X} (o : option X) : res X :=
   match o with Some x => Ok x | None => Panic Unwrap end.
@@ -59,7 +75,9 @@ def render_module(mod, ent, cache):
         gparams, term, rty = tr.function(fn, header)
         ps = " ".join("(%s : %s)" % (n, t) for n, t in gparams)
         L.append("(* %s : impl %s :: fn %s *)" % (rel, " ".join(header.split()), spec["fn"]))
-        L.append("Definition s_%s %s : res %s :=\n  %s.\n" % (spec["name"], ps, rust2coq.gtype(rty), rust2coq.pp(term, 2)))
+        gty = rust2coq.gtype(rty)
+        if gty == "SUMTYPE": gty = "(%s + %s)" % (rust2coq.gtype(tr.sum_left), spec["result_sum"]["type"])
+        L.append("Definition s_%s %s : res %s :=\n  %s.\n" % (spec["name"], ps, gty, rust2coq.pp(term, 2)))
         sigs[spec["name"]] = (gparams, rty)
     L += ["End Src%s." % mod, ""]
     return "\n".join(L), sigs
